@@ -147,7 +147,9 @@ def pvl_flavor(
         try:
             pvl.dumps(some_pvl, **decenc)
             encodes = True
-        except (LexerError, ParseError, ValueError) as err:
+        except Exception as err:
+            # Whatever goes wrong while encoding must not be reported
+            # as a failure to load.
             logging.error(f"{dialect} encode error {filename} {err}")
             encodes = False
     except (LexerError, ParseError) as err:
